@@ -52,4 +52,10 @@ man = {
     "notes": "Every check = Lean theorems (lake build + #print axioms audit) + tie to /repo (regenerated facts, differential run of the real code against the compiled Lean model) + failing-input search. See DESIGN.md.",
 }
 json.dump(man, open(os.path.join(V, "MANIFEST.json"), "w"), indent=1)
+agg = {"_comment": "GENERATED INDEX of known/*.json (the committed per-property files the checks read; never written at run time). status=open: genuine defect recorded, not repaired - the check prints KNOWN-FINDING and exits 0 while exactly that witness/signature fails. status=fixed: repaired by the named fix: commit; suppresses nothing - the witness is replayed on every run and a failure is a VIOLATION.", "fixed_log": [], "findings": []}
+for f in sorted(glob.glob(os.path.join(V, "known", "*.json"))):
+    k = json.load(open(f))
+    agg["fixed_log"] += k.get("fixed_log", [])
+    agg["findings"] += k.get("findings", [])
+json.dump(agg, open(os.path.join(V, "known_findings.json"), "w"), indent=1)
 print("MANIFEST.json: %d checks, %d not_applicable" % (len(checks), len(na)))
